@@ -1,9 +1,11 @@
 import DspVerif.Driver.H04
+import DspVerif.Driver.H10
+import DspVerif.Driver.H15
 /-! `dspdriver`: reads `C <tag> <args…> | …` lines on stdin, prints the model's outputs,
 one line per case, in order.  Unknown tags print `UNSUPPORTED`. -/
 open Dsp.Driver
 
-def handlers : List (List String → Option String) := [h04]
+def handlers : List (List String → Option String) := [h04, h10, h15]
 
 def handle (toks : List String) : String :=
   match handlers.findSome? (fun h => h toks) with
